@@ -464,6 +464,12 @@ class Rewriter:
         if getattr(self, "matchrw", ""):  # opt-in (`:: matchrw=orsplit,guardelse,ready`): R16 / R17 / R18, see rewrites_match.py
             import rewrites_match
             rewrites_match.apply(self, self.matchrw, Unsupported)
+        if getattr(self, "asyncblk", None) is not None or getattr(self, "mutself", False):  # opt-in: R23 / R24, see rewrites_async.py
+            import rewrites_async
+            if getattr(self, "asyncblk", None) is not None:
+                rewrites_async.apply_asyncblk(self, self.asyncblk, Unsupported)
+            if getattr(self, "mutself", False):
+                rewrites_async.apply_mutself(self, Unsupported)
         return self.t
 
     # R14 ------------------------------------------------------------
@@ -1241,6 +1247,7 @@ def emit_fn(u: Unit, fpath, impl_pat, name, spec: FnSpec, reach: bool, mutate):
     rw.boxpin = spec.opts.get("boxpin") == "1"
     rw.matchrw = spec.opts.get("matchrw", "")
     rw.macros, rw.macro_src = spec.opts.get("macros", ""), src  # R21
+    rw.asyncblk, rw.mutself = spec.opts.get("asyncblk"), spec.opts.get("mutself") == "1"  # R23 / R24
     try:
         t = rw.common()
         if spec.opts.get("mod") and spec.opts.get("rootpaths") == "1":
@@ -1283,6 +1290,17 @@ def emit_fn(u: Unit, fpath, impl_pat, name, spec: FnSpec, reach: bool, mutate):
                     t, kk = re.subn(r"\bSelf::%s\b" % re.escape(an), ty, t)
                     k += kk
             rw.note("R10b", k)
+            if k and spec.opts.get("mod") and spec.opts.get("rootpaths") == "1":
+                # R3m once more (unit `tlsfuture`, additive): the substituted definitions are text of the same
+                # nested module, their leading `super::` has to go as well (it would not compile otherwise)
+                rw.t = t
+                rw.r3m_super_paths(len(spec.opts["mod"].split("::")))
+                t = rw.t
+    if spec.opts.get("vis") == "pub" and re.match(r"\s*fn\b", t):
+        # opt-in `vis=pub` (unit `tlsfuture`, additive): a trait method is as visible as its trait; emitted as an
+        # inherent method (R10) it has to be `pub` to be callable from another module of the unit
+        t = re.sub(r"^(\s*)fn\b", r"\1pub fn", t, count=1)
+        rw.note("R10v")
     if key in u.stub:
         # body rejected by the Verus front end: keep signature (after all rewrites) + contract only
         u.stubbed[key] = "body rejected by the Verus front end"
